@@ -19,11 +19,11 @@ func init() {
 		Title: "Marshal-test helpers report exactly the failing cases",
 		Run:   runC20,
 		Explanation: "One rule set applied uniformly to the six sibling helpers of package test (cross-check by uniform obligations over SSA, not by text equality): " +
-			"C20.iface: on the first case the value is tested against the interface whose method carries the helper's name; failure calls assert.FailNow(f) with the helper's t and returns. " +
+			"C20.iface: the value is tested against the interface whose method carries the helper's name, in front of the direction filter and for every case (T may be an interface type: each case has its own dynamic type); failure calls assert.FailNow(f) with the helper's t and returns. " +
 			"C20.dir: the helper filters with the direction predicate of its own direction, applied to the case's Constraint, the false edge skipping the case; isForMarshal/isForUnmarshal are c==0 ∨ c==Only<own> (table over the constraint values). " +
 			"C20.hooks: Before precedes and After follows the marshal call, both through callForCase, both results asserted with NoError, a failure skips the case; no path from the marshal call to the next case avoids the After hook; the Before hook sits behind the direction filter; both hooks receive the address of the variable the case's Data/Value/Error are read from. C20.support: helperNew allocates a fresh target exactly when helper == nil and T is a pointer type (decision by the type only), otherwise helper.New(value); helperAssertEmpty/Equal assert on t with the values in order, or delegate to the TypeHelper; castToFunc makes both interface probes on its parameter (any(value), any(&value)), not on a zero T. " +
 			"C20.safe: the user's Marshal*/Unmarshal* method is invoked only inside a function with a deferred recover whose result is turned into the returned error; callForCase protects the hooks the same way. " +
-			"C20.verdict: with an error predicate: the predicate is invoked with (t, the obtained error, info) and, on true, an emptiness assertion on the produced data/value follows; without: NoError on the obtained error and, on true, an equality assertion between the case's expectation and the produced data/value; every assertion receives the helper's t; the expectation reaches the assertion as loaded from the case, unconverted. " +
+			"C20.verdict: with an error predicate: the predicate is invoked with (t, the obtained error, info) and, on true, an emptiness assertion (assert.Empty / the TypeHelper; not assert.Nil, which also fails on an empty non-nil result) on the produced data/value follows; without: NoError on the obtained error and, on true, an equality assertion between the case's expectation and the produced data/value; every assertion receives the helper's t; the expectation reaches the assertion as loaded from the case, unconverted, and two byte slices are not compared raw with assert.Equal (nil ≠ empty there) but as text or after the both-empty case is merged. " +
 			"C20.pred: each error predicate calls the assertion its name promises (assertion), and can answer false only where an assertion on t is known to have failed — the returned value is an assertion's own result, or the return lies behind the false edge of one, or behind assert.Fail (reports).",
 		NotDecided:  []string{"testify's assertion semantics", "behaviour when T is itself an interface type, beyond castToFunc probing the case value itself (C20.support probe)"},
 		Assumptions: []string{"assert.NoError/Equal/Nil/Empty/Error report a failure on t exactly when their condition does not hold and return false then"},
@@ -253,9 +253,46 @@ func ruleC20Helper(e *Env, h helperSpec) {
 		e.S.Unk("C20.verdict", site, "results", "could not identify the produced error and data/value of the protected call", pos)
 		return
 	}
+	expectName := map[bool]string{true: "Data", false: "Value"}[h.marshal]
 	isData := func(v ssa.Value) bool {
 		v = flow.Strip(v)
 		if h.marshal {
+			// the produced bytes, or the produced bytes with "both empty" normalised: a merge that takes the case's own
+			// Data only on the path where len(c.Data) == 0 and len(produced) == 0 both hold (nil and empty are one datum)
+			if ph, ok := v.(*ssa.Phi); ok {
+				nData := 0
+				for i, ed := range ph.Edges {
+					if derivesFrom(ed, dataV) {
+						nData++
+						continue
+					}
+					if !fieldLoad(ed, expectName) {
+						return false
+					}
+					sawE, sawD := false, false
+					for _, cc := range controlConds(ph.Block().Preds[i]) {
+						bo, ok := cc.cond.(*ssa.BinOp)
+						if !ok || bo.Op != token.EQL || !cc.pos {
+							continue
+						}
+						if k, isC := flow.ConstInt(bo.Y); !isC || k != 0 {
+							continue
+						}
+						if x, ok := flow.IsLenOf(bo.X); ok {
+							switch {
+							case fieldLoad(x, expectName):
+								sawE = true
+							case derivesFrom(x, dataV):
+								sawD = true
+							}
+						}
+					}
+					if !sawE || !sawD {
+						return false
+					}
+				}
+				return nData > 0
+			}
 			return derivesFrom(v, dataV)
 		}
 		u, ok := v.(*ssa.UnOp)
@@ -303,6 +340,7 @@ func ruleC20Helper(e *Env, h helperSpec) {
 		}
 		// the interface tested carries the helper's method
 		ifaceOK := false
+		var ifaceTest ssa.Instruction
 		for _, b := range fn.Blocks {
 			for _, in := range b.Instrs {
 				switch x := in.(type) {
@@ -310,6 +348,7 @@ func ruleC20Helper(e *Env, h helperSpec) {
 					if x.CommaOk {
 						if it, ok := x.AssertedType.Underlying().(*types.Interface); ok && ifaceHasMethod(it, h.name) {
 							ifaceOK = true
+							ifaceTest = x
 						}
 					}
 				case *ssa.Call:
@@ -317,10 +356,31 @@ func ruleC20Helper(e *Env, h helperSpec) {
 						for _, ta := range f.TypeArgs() {
 							if it, ok := ta.Underlying().(*types.Interface); ok && ifaceHasMethod(it, h.name) {
 								ifaceOK = true
+								ifaceTest = x
 							}
 						}
 					}
 				}
+			}
+		}
+		// T may itself be an interface type (a case table of any, of encoding.TextMarshaler): then every case has its
+		// own dynamic type, and the unchecked conversion in front of the protected call panics — outside the recover —
+		// for a later case whose value lacks the interface, unless the test is made for every case
+		if ifaceTest != nil {
+			firstOnly := false
+			for _, cc := range controlConds(ifaceTest.Block()) {
+				if bo, ok := cc.cond.(*ssa.BinOp); ok && bo.Op == token.EQL && cc.pos {
+					if k, isC := flow.ConstInt(bo.Y); isC && k == 0 {
+						if _, isInt := bo.X.Type().Underlying().(*types.Basic); isInt {
+							firstOnly = true
+						}
+					}
+				}
+			}
+			if firstOnly {
+				e.S.Bad("C20.iface", site, "every case", "the value is tested for the interface on the first case only; with an interface-typed T a later case whose value lacks it reaches the unchecked conversion in front of the protected call and the panic escapes the helper", e.posOf(ifaceTest), "[]Case[any]{{Value: marshaler}, {Value: 42}}")
+			} else {
+				e.S.Ok("C20.iface", site, "every case", "the interface test is made for every case", e.posOf(ifaceTest))
 			}
 		}
 		// the test must run on the first case whatever its constraint: it may not sit behind the direction filter
@@ -614,6 +674,9 @@ func verdictIn(e *Env, site, pos string, h helperSpec, fn *ssa.Function, r verdi
 				e.S.Bad("C20.verdict", site, "predicate branch", "when the predicate is satisfied the produced data/value is not asserted empty: a result alongside an expected error goes unreported"+where, e.posOf(predCall), "")
 			case !argsWithT(emp) || !anyArg(emp, r.isData):
 				e.S.Bad("C20.verdict", site, "predicate branch", "the emptiness assertion is not applied to the produced data/value with the helper's t"+where, e.posOf(emp), "")
+			case calleeName(&emp.Call) == "github.com/stretchr/testify/assert.Nil":
+				// "a non-empty result alongside an expected error": assert.Nil also fails on an empty, non-nil result
+				e.S.Bad("C20.verdict", site, "predicate branch", "the result alongside an expected error is asserted with assert.Nil, which reports an empty but non-nil result too: a case whose marshaler returns ([]byte{}, err) is reported although it produced no data"+where, e.posOf(emp), "a marshaler returning ([]byte{}, errors.New(\"boom\")) with Error: AnyError")
 			default:
 				e.S.Ok("C20.verdict", site, "predicate branch", "predicate(t, err, info) and, on true, emptiness assertion on the produced data/value"+where, e.posOf(predCall))
 			}
@@ -630,6 +693,9 @@ func verdictIn(e *Env, site, pos string, h helperSpec, fn *ssa.Function, r verdi
 				e.S.Bad("C20.verdict", site, "plain branch", "after NoError there is no equality assertion between the case's "+expectField+" and the produced "+map[bool]string{true: "data", false: "value"}[h.marshal]+": differing results pass silently"+where, e.posOf(noErr), "")
 			case !argsWithT(eq) || !anyArg(eq, r.isData) || !anyArg(eq, r.isExpect):
 				e.S.Bad("C20.verdict", site, "plain branch", "the equality assertion does not compare the case's "+expectField+" with the produced result on the helper's t"+where, e.posOf(eq), "")
+			case h.marshal && rawByteSlices(eq, r):
+				// testify's Equal tells a nil []byte from an empty one: as data they are the same
+				e.S.Bad("C20.verdict", site, "plain branch", "the expected and the produced bytes are compared as []byte values with assert.Equal, which tells nil from empty: a marshaler returning an empty non-nil slice for a case without Data (or nil for Data: []byte{}) is reported as differing"+where, e.posOf(eq), "Data omitted, marshaler returns ([]byte{}, nil)")
 			default:
 				e.S.Ok("C20.verdict", site, "plain branch", "NoError(t, err) and, on true, equality of c."+expectField+" and the produced result"+where, e.posOf(noErr))
 			}
@@ -656,6 +722,31 @@ func verdictIn(e *Env, site, pos string, h helperSpec, fn *ssa.Function, r verdi
 			e.S.Bad("C20.verdict", site, "branch selection", "the two verdict branches are not selected by c.Error != nil"+where, pos, "")
 		}
 	}
+}
+
+// rawByteSlices: the equality assertion receives the produced data as a []byte value that is the call's own result,
+// not text (string conversion) and not the both-empty-normalised merge.
+func rawByteSlices(eq *ssa.Call, r verdictRoles) bool {
+	for _, a := range eq.Call.Args {
+		if !r.isData(a) {
+			continue
+		}
+		v := a
+		if mi, ok := v.(*ssa.MakeInterface); ok { // what is compared: the boxed operand, conversions included
+			v = mi.X
+		}
+		sl, ok := v.Type().Underlying().(*types.Slice)
+		if !ok {
+			continue
+		}
+		if b, ok := sl.Elem().Underlying().(*types.Basic); !ok || b.Kind() != types.Uint8 {
+			continue
+		}
+		if _, merged := v.(*ssa.Phi); !merged {
+			return true
+		}
+	}
+	return false
 }
 
 func anyArg(c *ssa.Call, p func(ssa.Value) bool) bool {
